@@ -21,7 +21,6 @@ import (
 	"fmt"
 	"go/ast"
 	"go/constant"
-	"go/parser"
 	"go/token"
 	"os"
 	"path/filepath"
@@ -386,20 +385,29 @@ func matchByContent(env *predEnv, ref string, idx int) (string, []interval) {
 // fragment. Without a sweep file such a predicate ends the run with status 3, which asks the
 // caller to run the sweep and call again.
 func tables(repo, sweep, ref string) (map[string][]interval, []string) {
-	path := filepath.Join(repo, "internal", "gem", "graphemeclusters.go")
-	fset := token.NewFileSet()
+	// the predicates are looked up in the whole package (they may move between its files)
 	env := &predEnv{fns: map[string]*ast.FuncDecl{}, memo: map[string]iset{}, stack: map[string]bool{}}
-	f, err := parser.ParseFile(fset, path, nil, 0)
-	if err != nil {
-		// the predicates may have moved to another file: their tables are then read off the compiled code
-		fmt.Fprintf(os.Stderr, "translator: parse %s: %v\n", path, err)
-	} else {
-		for _, d := range f.Decls {
-			if fd, ok := d.(*ast.FuncDecl); ok && fd.Recv == nil {
-				env.fns[fd.Name.Name] = fd
+	func() {
+		softFail = true
+		defer func() {
+			softFail = false
+			if r := recover(); r != nil {
+				if e, ok := r.(softErr); ok {
+					// the package cannot be read: the tables are then read off the compiled code
+					fmt.Fprintf(os.Stderr, "translator: internal/gem: %s\n", string(e))
+					return
+				}
+				panic(r)
+			}
+		}()
+		for _, f := range parsePkg(filepath.Join(repo, "internal", "gem")) {
+			for _, d := range f.Decls {
+				if fd, ok := d.(*ast.FuncDecl); ok && fd.Recv == nil {
+					env.fns[fd.Name.Name] = fd
+				}
 			}
 		}
-	}
+	}()
 	res := map[string][]interval{}
 	var swept []string
 	var need []string
